@@ -9,6 +9,7 @@ package main
 // exits non-zero with SELFTEST-MISS and *no* VIOLATION line.
 
 import (
+	"context"
 	"encoding/json"
 	"fmt"
 	"os"
@@ -17,6 +18,7 @@ import (
 	"sort"
 	"strings"
 	"sync"
+	"time"
 )
 
 type mutant struct {
@@ -124,6 +126,10 @@ func runSelfTest(c *Ctx, def *propDef, repo, verif string) (bool, any) {
 			ok = false
 			fmt.Printf("SELFTEST-MISS rule=%s mutant=%s (%s): reported %v\n", r.Expect, r.ID, r.Why, r.Reported)
 		}
+		if strings.HasPrefix(r.Status, "invalid (analysis did not finish") {
+			ok = false
+			fmt.Printf("SELFTEST-HANG variant=%s (%s): %s\n", r.ID, r.Why, r.Status)
+		}
 		if r.Status == "FALSE-ALARM" {
 			ok = false
 			fmt.Printf("SELFTEST-FALSE-ALARM variant=%s (%s): reported %v\n", r.ID, r.Why, r.Reported)
@@ -135,11 +141,15 @@ func runSelfTest(c *Ctx, def *propDef, repo, verif string) (bool, any) {
 		"how": "each mutant is an in-memory overlay of one source file of the current tree, analysed in a separate process; the named rule must report"}
 }
 
+const variantTimeout = 10 * time.Minute
+
 func runMutant(exe, repo, verif string, m mutant) mutantResult {
 	res := mutantResult{ID: m.ID, Why: m.Why, Expect: m.Expect}
 	var ov []byte
 	if len(m.Env) > 0 {
-		cmd := exec.Command(exe, "-p", m.Prop, "-repo", repo, "-verif", verif, "-json", "-no-selftest")
+		ctx, cancel := context.WithTimeout(context.Background(), variantTimeout)
+		defer cancel()
+		cmd := exec.CommandContext(ctx, exe, "-p", m.Prop, "-repo", repo, "-verif", verif, "-json", "-no-selftest")
 		cmd.Env = append(os.Environ(), m.Env...)
 		out, _ := cmd.Output()
 		line := strings.TrimSpace(string(out))
@@ -192,8 +202,15 @@ func runMutant(exe, repo, verif string, m mutant) mutantResult {
 	defer os.Remove(tmp.Name())
 	tmp.Write(ov)
 	tmp.Close()
-	cmd := exec.Command(exe, "-p", m.Prop, "-repo", repo, "-verif", verif, "-overlay", tmp.Name(), "-json", "-no-selftest")
+	// an analysis that does not finish is reported as an invalid variant (which fails the self-test), not waited for
+	ctx, cancel := context.WithTimeout(context.Background(), variantTimeout)
+	defer cancel()
+	cmd := exec.CommandContext(ctx, exe, "-p", m.Prop, "-repo", repo, "-verif", verif, "-overlay", tmp.Name(), "-json", "-no-selftest")
 	out, _ := cmd.Output()
+	if ctx.Err() != nil {
+		res.Status = "invalid (analysis did not finish within " + variantTimeout.String() + ")"
+		return res
+	}
 	line := strings.TrimSpace(string(out))
 	if i := strings.LastIndex(line, "\n"); i >= 0 {
 		line = line[i+1:]
